@@ -20,6 +20,7 @@ func init() {
 			"[context, parent protected bytes, countersigner protected bytes, external, payload(, [parent signature])] with the context the statement gives per parent kind and form. Binding: the countersignature verifies against its exact parent; " +
 			"then the parent crosses a faulty channel (one fault from the byte/structural catalogue, a splice, a benign unprotected edit) or the external data changes, and the verdict must equal the reference verdict over the received parent " +
 			"(unchanged signed fields => still verifies, changed => error); it is offered as a message signature and as the other countersignature form (must fail); unsigned and payload-less parents must be refused by Sign and Verify without a call at the seam. " +
+			"Full countersignatures that ARRIVED with a decoded message are verified through a spy: bytes at the verifier's seam == reference structure over the wire bytes, verdict acceptance. " +
 			"Non-trivial = a countersignature was made and judged; distinct = distinct (parent kind, form, constructed/decoded, fault kinds, outcomes) sequence.",
 		Assumptions: []string{"for the abbreviated forms the statement fixes contexts and parent fields only: the reference accepts the countersigner-protected slot being h'' or omitted (RFC 9338 section 3.3 vs go-cose; DESIGN section 5)", "Go crypto primitives are correct"},
 		Real:        []string{"github.com/veraison/go-cose (countersign.go, decoders, built-in signers/verifiers)", "github.com/fxamacker/cbor/v2", "Go crypto"},
